@@ -427,7 +427,9 @@ def mk_Sum(rng, ishape, maxn):
     nd = len(ishape)
     if nd < 2:
         return None
-    k = int(rng.integers(1, nd))
+    # (every axis in about an eighth of the draws: the operator then has the 0-d output
+    # shape [], and whatever is built on top of it works with 0-d arrays)
+    k = nd if rng.random() < 0.125 else int(rng.integers(1, nd))
     ax = sorted(rng.choice(nd, size=k, replace=False).tolist())
     axes = [int(a - nd) if rng.random() < 0.4 else int(a) for a in ax]
     oshape = [ishape[i] for i in range(nd) if i not in ax]
@@ -797,7 +799,24 @@ ADAPTABLE = ["Identity", "ToDevice", "AllReduce", "Reshape", "Transpose", "FFT",
 ENDO = ["Identity", "FFT", "IFFT", "Flip", "Circshift", "MultiplyFull", "TransposeId"]
 
 
+def _leaf0(rng, endo=False):
+    """Leaf for the 0-d input shape [] (what a Sum over every axis hands on)."""
+    k = pick(rng, ["Identity", "Multiply", "Multiply"] + ([] if endo else ["Reshape", "Tile"]))
+    if k == "Identity":
+        return {"op": "Identity", "ishape": [], "oshape": []}
+    if k == "Multiply":
+        return {"op": "Multiply", "ishape": [], "oshape": [], "conj": bool(rng.random() < 0.4),
+                "mkind": pick(rng, ["pyreal", "pycomplex", "npfloat", "npcomplex", "pyint"]),
+                "aseed": _aseed(rng)}
+    if k == "Reshape":
+        return {"op": "Reshape", "ishape": [], "oshape": [1]}
+    n = int(rng.integers(1, 4))
+    return {"op": "Tile", "ishape": [], "oshape": [n], "axes": [pick(rng, [0, -1])]}
+
+
 def gen_leaf(rng, kind=None, ishape=None, maxn=6):
+    if ishape is not None and len(ishape) == 0:
+        return _leaf0(rng) if kind is None else None
     for _ in range(30):
         k = kind or pick(rng, ADAPTABLE if ishape is not None else LEAF_KINDS)
         d = MAKERS[k](rng, list(ishape) if ishape is not None else None, maxn)
@@ -812,6 +831,8 @@ def gen_leaf(rng, kind=None, ishape=None, maxn=6):
 
 
 def gen_endo(rng, shape, maxn=6):
+    if len(shape) == 0:
+        return _leaf0(rng, endo=True)
     k = pick(rng, ENDO)
     if k == "MultiplyFull":
         return {"op": "Multiply", "ishape": list(shape), "oshape": list(shape),
@@ -869,6 +890,8 @@ def _leaf_known(rng, ishape, maxn):
         d = gen_leaf(rng, None, ishape, maxn)
         if d is not None and _known_oshape(d) and _size_ok(d):
             return d
+    if ishape is not None and len(ishape) == 0:
+        return {"op": "Identity", "ishape": [], "oshape": []}
     return mk_Identity(rng, ishape, maxn)
 
 
@@ -973,7 +996,7 @@ def _gen_tree(rng, depth, ishape, maxn):
 
 def _pick_axis(rng, ndim):
     r = rng.random()
-    if r < 0.3:
+    if r < 0.3 or ndim == 0:
         return None
     a = int(rng.integers(0, ndim))
     return a - ndim if rng.random() < 0.5 else a
